@@ -547,6 +547,45 @@ func c03units(tier string) []mc.Unit {
 		r.AddNontrivial(cnt)
 		r.Bound("molecule-x-alphabet", "4 molecule types x 6 alphabets x 5 lengths")
 	}})
+	// every feature count 0..70 and counts around 100, 128, 256, 1000, under several GOMAXPROCS settings
+	us = append(us, mc.Unit{Name: "feature-counts", Serial: true, Weight: 60, Run: func(r *mc.Recorder) {
+		var cnt int64
+		counts := []int{99, 100, 101, 127, 128, 129, 255, 256, 257, 1000}
+		for n := 0; n <= 70; n++ {
+			counts = append(counts, n)
+		}
+		withProcs([]int{1, 4, 7}, func(procs int) {
+			memo := &c3memo{first: map[string]string{}}
+			for _, nf := range counts {
+				if nf > 300 && procs != 4 {
+					continue
+				}
+				var s poly.Sequence
+				s.Sequence = gbSeq(240, 6)
+				s.Meta.Locus = poly.Locus{Name: "built1", SequenceLength: "240", MoleculeType: "DNA", GenbankDivision: "SYN", ModificationDate: "01-JAN-2000", Linear: true}
+				s.Meta.Definition, s.Meta.Accession, s.Meta.Version, s.Meta.Keywords = "Assembled record.", "XY000001", "XY000001.1", "."
+				s.Meta.Source, s.Meta.Organism = "synthetic construct", "synthetic construct"
+				s.Meta.Other = map[string]string{}
+				for i := 0; i < nf; i++ {
+					f := poly.Feature{Type: []string{"gene", "CDS", "misc_feature"}[i%3], Attributes: map[string]string{"note": fmt.Sprintf("feature %d", i)}}
+					if i%5 == 0 {
+						f.Attributes["gene"] = "g" + strconv.Itoa(i)
+					}
+					a := (i * 7) % 200
+					f.SequenceLocation = poly.Location{Start: a, End: a + 10 + i%20, Complement: i%4 == 1}
+					s.AddFeature(&f)
+				}
+				key := fmt.Sprintf("%d features, GOMAXPROCS=%d", nf, procs)
+				c3judge(r, memo, key, "assembled record: "+key, []string{"feature-count"}, s)
+				cnt++
+			}
+		})
+		r.Eval(cnt)
+		r.AddStates(cnt)
+		r.AddTransitions(cnt)
+		r.AddNontrivial(cnt)
+		r.Bound("feature-counts", "every feature count 0..70 and 99..101, 127..129, 255..257, 1000, GOMAXPROCS 1, 4, 7")
+	}})
 	us = append(us, mc.Unit{Name: "files", Weight: 10, Run: func(r *mc.Recorder) {
 		dir, err := os.MkdirTemp("", "c03")
 		if err != nil {
